@@ -318,7 +318,7 @@ var propLife = hx.Prop[LCase]{
 		"positive period cancelled after 0-40 ms of its initial one-minute wait; DoScan over 3 mailboxes with a 30 s inter-mailbox sleep " +
 		"cancelled after 0-40 ms: Start/DoScan/Join must return within 2 s (one-sided bound, the configured sleeps are 30-60 s); " +
 		"non-trivial = a cancellation case",
-	Quick: 12, Thorough: 40,
+	Quick: 30, Thorough: 120,
 	Gen: func(t *rapid.T) LCase {
 		return LCase{Backend: rapid.SampledFrom([]string{"mem", "file"}).Draw(t, "backend"),
 			Mode: rapid.SampledFrom([]string{"zero", "cancel-wait", "cancel-scan", "cancel-scan", "cancel-mid", "cancel-mid"}).Draw(t, "mode"), DelayMs: rapid.IntRange(0, 40).Draw(t, "delay")}
